@@ -30,7 +30,7 @@ Apply(mm, r) ==
     [] r.ev = "Cmd" /\ r.phase = "return" -> MRet(mm, r.id, r.kind, r.result)
     [] r.ev = "EndpointOp" -> MOp(mm, OpOf(r))
     [] r.ev = "Edit" -> MEdit(mm)
-    [] r.ev = "Roots" -> MRoots(mm, RootsOf(r.alpha, r.beta))
+    [] r.ev = "Roots" /\ r.stable -> MRoots(mm, RootsOf(r.alpha, r.beta))
     [] OTHER -> mm
 
 \* newly(flag): the flag is raised by this record
@@ -38,17 +38,18 @@ Judge(i, r, m0, m1) ==
      Chk(Want, i, "C29_PausedQuiet", ~(m1.badOp /\ ~m0.badOp))
   \o Chk(Want, i, "C29_FlushFresh", ~(m1.badFlush /\ ~m0.badFlush))
   \o Chk(Want, i, "C11_Halts", ~(m1.haltBad /\ ~m0.haltBad))
-  \o (IF r.ev = "State" /\ r.listErr = "" THEN
+  \* observations are judged only when nothing else was journalled while they were taken (r.stable)
+  \o (IF r.ev = "State" /\ r.stable /\ r.listErr = "" THEN
            Chk(Want, i, "C29_PauseSurvivesRestart", C29_PauseSurvivesRestart(m0, r))
         \o Chk(Want, i, "C29_TerminatedGone", C29_TerminatedGoneList(m0, r))
         \o Chk(Want, i, "C11_Halts", C11_Status(m0, r))
       ELSE <<>>)
-  \o (IF r.ev = "Disk" THEN
+  \o (IF r.ev = "Disk" /\ r.stable THEN
            Chk(Want, i, "C29_PauseSurvivesRestart", C29_PauseOnDisk(m0, r))
         \o Chk(Want, i, "C29_TerminatedGone", C29_TerminatedGoneDisk(m0, r))
         \o Chk(Want, i, "C29_ResetKeepsRoots", C29_ResetArchive(m0, r))
       ELSE <<>>)
-  \o (IF r.ev = "Roots" THEN
+  \o (IF r.ev = "Roots" /\ r.stable THEN
            Chk(Want, i, "C29_ResetKeepsRoots", C29_ResetKeepsRoots(m0, RootsOf(r.alpha, r.beta)))
         \o Chk(Want, i, "C11_Halts", C11_Roots(m0, RootsOf(r.alpha, r.beta)))
       ELSE <<>>)
